@@ -18,6 +18,7 @@ JVariant(r, v, tag) ==
         /\ Clause(i, "C10." \o tag \o ".contacts_on_section_one_radius_away", ContactsOnSection(st))
         /\ Clause(i, "C10." \o tag \o ".contacts_on_opposite_sides", ContactsOppositeSides(st, glen))
         /\ Clause(i, "C10." \o tag \o ".stations_advance", Monotone(st))
+        /\ Clause(i, "C10." \o tag \o ".leading_to_trailing", TrueSense(st, glen))
         /\ Clause(i, "C10." \o tag \o ".centres_on_camber_radii_on_law", FollowsLaw(st, glen))
         /\ Clause(i, "C10." \o tag \o ".max_thickness_recovered", AbsF(v.tmax.r - r.rmax_mc) <= 300
                                                                   /\ (v.upper.some => v.tmax.thk_ok /\ AbsF(v.tmax.thk - 2 * v.tmax.r) <= 40))
@@ -28,6 +29,9 @@ JVariant(r, v, tag) ==
             /\ Clause(i, "C10." \o tag \o ".edge_points_on_section",
                    (v.le.geom = "open" \/ v.le.dsec <= TEdgeOnSection) /\ (v.te.geom = "open" \/ v.te.dsec <= TEdgeOnSection))
             /\ Clause(i, "C10." \o tag \o ".edge_points_end_the_camber", PNear2(v.cam_first, v.le.p, 4) /\ PNear2(v.cam_last, v.te.p, 4))
+            \* the located edges are the ends of the generating envelope (checked at the ends the section really has)
+            /\ Clause(i, "C10." \o tag \o ".edge_points_at_true_ends",
+                   (r.le_chk => PNear2(v.le.p, r.out.le_true, TEdgeTruth)) /\ (r.te_chk => PNear2(v.te.p, r.out.te_true, TEdgeTruth)))
             /\ Clause(i, "C10." \o tag \o ".surfaces_present", v.upper.some /\ v.lower.some)
             /\ (v.upper.some /\ v.lower.some) =>
                 /\ Clause(i, "C10." \o tag \o ".surfaces_partition_perimeter", AbsF(v.upper.len + v.lower.len - v.perimeter) <= TPartition
